@@ -21,6 +21,10 @@
 //   - afterwards, sequentially: an identical copy of the shared set is processed and queried with
 //     the same script (the expected answers) and every private set is run again (the expected
 //     dumps); every reader answer and every pipeline dump is compared;
+//   - independence of module sets across the whole process: after its last round every child
+//     dumps a fixed canary set (all statement kinds; plain lists and leaf-lists) and the dump
+//     must equal the one made by a fresh process that handled nothing else ("processed alone");
+//     a difference is bisected to the first round that causes it;
 //   - the conditions that put the allow-listed write sites (harness/cmd/extract-access/
 //     allow.json) outside the claim are asserted: ToEntry of a processed module returns the entry
 //     cached by Process; Find is called with paths of existing nodes only and afterwards no root
@@ -1085,6 +1089,7 @@ func main() {
 		replay(f, n, batch)
 		return
 	}
+	canaryFile = makeCanary()
 	res := lib.NewResult("C19", f)
 	res.Rule = "distinct_nontrivial = number of distinct generated shared module sets (hash of the sources) with at least 3 modules, " +
 		"an rpc, a cross-module augment and a uses (possible from the stage of a process at which these kinds are in use), each processed by one " +
@@ -1092,7 +1097,7 @@ func main() {
 		"the concurrent phase first in a cold process, the sequential reference afterwards; evaluations = reader answers and pipeline dumps compared with the sequential run"
 	distinct := lib.NewDistinct()
 	var mu sync.Mutex
-	var nodes, ops, firstNS, mods, withErr, roundsDone, unexpected, anomalies int64
+	var nodes, ops, firstNS, mods, withErr, roundsDone, unexpected, anomalies, canaries int64
 	type job struct{ from, to int }
 	jobs := make(chan job)
 	var wg sync.WaitGroup
@@ -1111,6 +1116,11 @@ func main() {
 				o := runBatch(f.Seed, j.from, j.to, n, batch, 20*time.Minute)
 				mu.Lock()
 				for _, rr := range o.results {
+					if rr.Canary {
+						res.Evaluations += rr.Evals
+						canaries++
+						continue
+					}
 					roundsDone++
 					res.Evaluations += rr.Evals
 					nodes += int64(rr.Nodes)
@@ -1133,7 +1143,23 @@ func main() {
 					}
 				}
 				mu.Unlock()
+				if p := canaryProblem(o); p != "" {
+					r := culprit(f.Seed, j.from, j.to, n, batch)
+					_, kinds := paletteFor(f.Seed, r, batch)
+					res.AddDisagreement(lib.Disagreement{Kind: "spec", SpecVerdict: "violates",
+						Input: map[string]any{"seed": f.Seed, "round": r, "goroutines": n, "first_round_of_process": j.from, "kinds_in_round": kinds},
+						Go:    p,
+						What: fmt.Sprintf("C19: module sets are not independent: after round %d (rounds %d..%d in one process) a module set gives a result that differs from the same set processed alone; rounds %d..%d leave it intact. %s",
+							r, j.from, r, j.from, r-1, p),
+						Replay: replayInfo{f.Seed, r, n, batch}})
+					mu.Lock()
+					stop = true
+					mu.Unlock()
+				}
 				for _, rr := range o.results {
+					if rr.Canary {
+						continue
+					}
 					if len(rr.Problems) > 0 {
 						res.AddDisagreement(lib.Disagreement{Kind: "spec", SpecVerdict: "violates",
 							Input: map[string]any{"seed": f.Seed, "round": rr.Round, "goroutines": n, "shared_set": rr.SharedHash},
@@ -1178,6 +1204,7 @@ func main() {
 	res.DistinctNontrivial = distinct.Len()
 	res.Distribution["rounds"] = roundsDone
 	res.Distribution["cold_processes"] = (total + batch - 1) / batch
+	res.Distribution["processes_whose_final_canary_dump_was_compared_with_the_dump_of_a_fresh_process"] = canaries
 	res.Distribution["rounds_per_process"] = batch
 	res.Distribution["goroutines_per_round"] = n
 	res.Distribution["readers_per_round"] = n - n/2
@@ -1197,12 +1224,14 @@ func main() {
 	res.Notes = append(res.Notes,
 		"supporting run, not the proof: schedules are sampled; the race detector reports only races that happen in an executed schedule",
 		"reader paths: only existing nodes; the guards of the allow-list (allow.json) are asserted after every round",
+		"independence: after its last round every child process dumps a fixed canary module set (all statement kinds, plain lists and leaf-lists); the dump must equal the one a fresh process makes of the same set alone; a difference is bisected to the first round that causes it",
 		"cold start: each child process begins with the concurrent phase (nothing converted before); statement kinds are introduced one per round within a process, so first-use writes of process-wide tables meet concurrent goroutines",
 		fmt.Sprintf("child processes run with GORACE=halt_on_error=1 exitcode=66, %d at a time, %d rounds each", par, batch))
 	if int(roundsDone) < total && len(res.Disagreements) == 0 {
 		lib.Fatal("only %d of %d rounds reported", roundsDone, total)
 	}
 	res.Write(f.Out)
+	os.Remove(canaryFile)
 	if len(res.Disagreements) > 0 {
 		os.Exit(1)
 	}
@@ -1229,6 +1258,7 @@ func replay(f *lib.Flags, n, batch int) {
 		batch = ri.Batch
 	}
 	first := ri.Round - ri.Round%batch
+	canaryFile = makeCanary()
 	// the program of the round: the shared module set (the private sets and the reader script
 	// derive from the same seed; `-show <round> -seed <seed> -batch <b>` prints script and answers)
 	pal, kinds := paletteFor(ri.Seed, ri.Round, batch)
@@ -1261,6 +1291,7 @@ func replay(f *lib.Flags, n, batch int) {
 	}
 	fmt.Printf("Go: %d run(s) failed (up to %d tried, stopping at the first failure); model: race free under the extracted discipline (Props/C19.lean); spec verdict: %s\n",
 		bad, tries, map[bool]string{true: "violates", false: "holds (on the schedules tried)"}[bad > 0])
+	os.Remove(canaryFile)
 	if bad > 0 {
 		os.Exit(1)
 	}
